@@ -22,6 +22,7 @@ type slotSummary struct {
 	child  string // child expression, normalised
 	pos    token.Pos
 	why    string // for form == other
+	callee *FuncUnit // dispatch: the per-class method the arm hands the node to
 }
 
 func (s slotSummary) String() string {
@@ -112,11 +113,46 @@ func (a *armNorm) occFromGuard(cond ast.Expr, skipVars map[string]bool) []string
 
 // summariseArm extracts the slot summary of one case clause of a kind switch.
 func (c *Ctx) summariseArm(cc *ast.CaseClause, byteVar string) slotSummary {
+	s := c.summariseStmts(cc.Body, "", byteVar, cc.Pos())
+	// an arm that hands the typed node to a method of its size class (n4.findChild(b)): what that
+	// method does with the slots is what the arm does
+	returnsRef := func(u *FuncUnit) bool {
+		if u == nil || u.Obj == nil {
+			return false
+		}
+		sig, _ := u.Obj.Type().(*types.Signature)
+		if sig == nil || sig.Results().Len() != 1 {
+			return false
+		}
+		return c.isNodeRefType(sig.Results().At(0).Type()) || isUnsafePointer(sig.Results().At(0).Type())
+	}
+	if s.form == "dispatch" && returnsRef(s.callee) && s.callee.Body != nil && s.callee.Decl != nil && s.callee.Decl.Recv != nil && len(s.callee.Decl.Recv.List) == 1 && len(s.callee.Decl.Recv.List[0].Names) == 1 {
+		recv := s.callee.Decl.Recv.List[0].Names[0].Name
+		bv := ""
+		if s.callee.Type.Params != nil {
+			for _, f := range s.callee.Type.Params.List {
+				if b, ok := c.m.Info.TypeOf(f.Type).Underlying().(*types.Basic); ok && b.Kind() == types.Uint8 {
+					for _, nm := range f.Names {
+						bv = nm.Name
+					}
+				}
+			}
+		}
+		if inner := c.summariseStmts(s.callee.Body.List, recv, bv, cc.Pos()); inner.form == "lookup" || inner.form == "enumerate" || inner.form == "extreme" {
+			return inner
+		}
+	}
+	return s
+}
+
+// summariseStmts summarises a statement list; nodeName names the variable that holds the typed
+// node when it is not introduced by a cast in the list itself (the receiver of a per-class method).
+func (c *Ctx) summariseStmts(stmts []ast.Stmt, nodeName, byteVar string, pos token.Pos) slotSummary {
 	info := c.m.Info
-	s := slotSummary{form: "other", pos: cc.Pos()}
-	a := &armNorm{c: c, idx: map[string]string{}}
+	s := slotSummary{form: "other", pos: pos}
+	a := &armNorm{c: c, idx: map[string]string{}, node: nodeName}
 	var rest []ast.Stmt
-	for _, st := range cc.Body {
+	for _, st := range stmts {
 		if as, ok := st.(*ast.AssignStmt); ok && as.Tok == token.DEFINE && len(as.Lhs) == 1 && len(as.Rhs) == 1 {
 			if call, ok := ast.Unparen(as.Rhs[0]).(*ast.CallExpr); ok && isConversion(info, call) {
 				if c.m.kindByStruct(info.TypeOf(call)) != nil {
@@ -142,6 +178,24 @@ func (c *Ctx) summariseArm(cc *ast.CaseClause, byteVar string) slotSummary {
 		if !reads {
 			s.form = "dispatch"
 			s.child = "(no slot access)"
+			// … but it may hand the typed node to a per-class method that does
+			for _, st := range rest {
+				ast.Inspect(st, func(n ast.Node) bool {
+					call, ok := n.(*ast.CallExpr)
+					if !ok || s.callee != nil {
+						return true
+					}
+					if sel, ok := call.Fun.(*ast.SelectorExpr); ok {
+						if id, ok := sel.X.(*ast.Ident); ok && a.node != "" && id.Name == a.node {
+							if cu := c.m.calleeUnit(call); cu != nil && cu.Lit == nil {
+								s.callee = cu
+								s.child = sel.Sel.Name
+							}
+						}
+					}
+					return true
+				})
+			}
 			return s
 		}
 	}
@@ -207,6 +261,7 @@ func (c *Ctx) summariseArm(cc *ast.CaseClause, byteVar string) slotSummary {
 					if id, ok := sel.X.(*ast.Ident); ok && id.Name == a.node {
 						s.form = "dispatch"
 						s.child = sel.Sel.Name
+						s.callee = c.m.calleeUnit(call)
 						return s
 					}
 				}
@@ -466,6 +521,9 @@ func (c *Ctx) summariseArm(cc *ast.CaseClause, byteVar string) slotSummary {
 					if ue, ok := ast.Unparen(x.Results[0]).(*ast.UnaryExpr); ok && ue.Op == token.AND {
 						use = ue.X
 						continue
+					}
+					if info.Types[x.Results[0]].IsNil() {
+						continue // the "not found" answer of a per-class lookup
 					}
 				}
 				okShape = false
